@@ -26,10 +26,13 @@ Check c18_handshake_frame_roundtrip : forall ops fr rest,
   pindom (isi_pval (isi_of b)) = true ->
   frame_encode (b_mode b) (isi_pval (isi_of b)) = Ok fr ->
   frame_decode (b_mode b) (fr ++ rest) = Got (isi_pval (isi_of b)) rest /\ wf_frame (b_mode b) fr.
+Check c18_relay_options_do_not_reach_the_handshake : forall ops1 ops2,
+  build (ops1 ++ OOther :: ops2) = build (ops1 ++ ops2).
 Check c18_setters_touch_only_their_own_option : footprints_tied = true.
 Print Assumptions c18_isi_carries_last_set_or_default.
 Print Assumptions c18_flag_setter_changes_only_its_bit.
 Print Assumptions c18_setters_match_flags.
 Print Assumptions c18_mode_and_proto.
 Print Assumptions c18_handshake_frame_roundtrip.
+Print Assumptions c18_relay_options_do_not_reach_the_handshake.
 Print Assumptions c18_setters_touch_only_their_own_option.
